@@ -10,6 +10,8 @@ import (
 	"path/filepath"
 	"reflect"
 	"strings"
+	"sync"
+	"sync/atomic"
 	"time"
 
 	"github.com/theparanoids/crypki/proto"
@@ -66,8 +68,8 @@ func reply(rng interface{ Intn(int) int }, n int) (text string, certs []ssh.Publ
 
 func main() {
 	ev.Main("C17", "fault_enumeration", func(r *ev.Run) {
-		r.Rule("four real gRPC/TLS signing servers on 127.0.0.2..5 share one port; for every endpoint list of length 0..4 (in natural and permuted order, empty given as nil and as []string{}) and every success/failure vector over it, each failing position takes one failure kind from {RPC status code (quick: Unavailable, Internal, DeadlineExceeded, Canceled; thorough: all 16 codes), empty key text, unparsable key text, server hangs until the per-try deadline, nobody listening}; successful positions return 1..4 certificates with comment shapes {none, word, two words, non-ASCII} and stray comment lines. Oracle from the servers' logs: the endpoints that received the request form a prefix of the configured order ending at the first success; the request each received is proto.Equal to the one passed; the result is that server's certificates in order with one comment per certificate; no success -> error (never nil certificates with a nil error). Backoff: (*backoff.Config).Backoff sampled over attempts {0..70, 600..700, 2^16, 2^31, 2^32-1} x base {0, 1ns, 1ms, 2s, max} x multiplier {1, 1.0001, 1.6, 3, 1e6} x max {base..24h} x jitter {0, 0.2, 1}, 20 samples each: 0 <= d <= max*(1+jitter)+1ns. distinct_nontrivial = distinct (endpoint list, behaviour vector) signing calls judged + distinct backoff configurations x attempts within bounds")
-		r.Assume("Retries: 1 (one attempt per endpoint) so that failures are instant", "loopback servers stand in for crypki")
+		r.Rule("four real gRPC/TLS signing servers on 127.0.0.2..5 share one port; for every endpoint list of length 0..4 (in natural and permuted order, empty given as nil and as []string{}) and every success/failure vector over it, each failing position takes one failure kind from {RPC status code (quick: Unavailable, Internal, DeadlineExceeded, Canceled; thorough: all 16 codes), empty key text, unparsable key text, server hangs until the per-try deadline, nobody listening}; successful positions return 1..4 certificates with comment shapes {none, word, two words, non-ASCII} and stray comment lines. Oracle from the servers' logs: the endpoints that received the request form a prefix of the configured order ending at the first success; the request each received is proto.Equal to the one passed; the result is that server's certificates in order with one comment per certificate; no success -> error (never nil certificates with a nil error). Retries (Retries 2..3, own servers, real backoff delays): a transient status (Unavailable, ResourceExhausted) is retried on the same endpoint, a non-retryable one is not; every attempt carries the unmodified request; later endpoints stay untouched when an earlier one finally answers; the observed delay between attempts stays below the configured maximum (with slack for load). Backoff: (*backoff.Config).Backoff sampled over attempts {0..70, 600..700, 2^16, 2^31, 2^32-1} x base {0, 1ns, 1ms, 2s, max} x multiplier {1, 1.0001, 1.6, 3, 1e6} x max {base..24h} x jitter {0, 0.2, 1}, 20 samples each: 0 <= d <= max*(1+jitter)+1ns. distinct_nontrivial = distinct (endpoint list, behaviour vector) signing calls judged + distinct backoff configurations x attempts within bounds")
+		r.Assume("Retries: 1 (one attempt per endpoint) in the enumeration so that failures are instant; the sign-retries family uses 2..3", "loopback servers stand in for crypki")
 		gen.Pool()
 		signing(r)
 		backoffs(r)
@@ -99,6 +101,11 @@ func signing(r *ev.Run) {
 		r.Inconclusive("cannot start CA servers: " + err.Error())
 		return
 	}
+	// the retry family waits out real backoff delays (~6 s each): it runs beside everything else, on servers of its own
+	var rwg sync.WaitGroup
+	rwg.Add(1)
+	go func() { defer rwg.Done(); retries(r, ca, caPath, clientCert, clientKey) }()
+	defer rwg.Wait()
 	defer func() {
 		for _, s := range servers {
 			s.Stop()
@@ -553,6 +560,144 @@ func signing(r *ev.Run) {
 		}
 	}
 	r.Extra("signing_cases", idx)
+}
+
+// retries: more than one attempt per endpoint. A transient failure of an endpoint is retried on THAT endpoint (after
+// the backoff delay) before the next one is tried; the request is the same on every attempt; later endpoints stay
+// untouched when an earlier one finally answers.
+func retries(r *ev.Run, ca *caserver.CA, caPath, clientCert, clientKey string) {
+	type rcase struct {
+		name      string
+		retries   uint
+		failFirst []int      // per endpoint: how many leading calls fail
+		code      codes.Code // with this status
+		wantFrom  int        // index of the endpoint whose certificates are returned (-1: error)
+	}
+	cases := []rcase{
+		{"transient-then-ok", 2, []int{1, 0}, codes.Unavailable, 0},
+		{"exhausted-then-next", 2, []int{99, 0}, codes.Unavailable, 1},
+		{"resource-exhausted-then-ok", 3, []int{1, 0}, codes.ResourceExhausted, 0},
+		{"non-retryable-then-next", 3, []int{99, 0}, codes.Internal, 1},
+		{"all-exhausted", 2, []int{99, 99}, codes.Unavailable, -1},
+	}
+	var wg sync.WaitGroup
+	for ci, rc := range cases {
+		c := r.Case("sign-retries", ci)
+		if c == nil {
+			continue
+		}
+		wg.Add(1)
+		go func(ci int, rc rcase) {
+			defer wg.Done()
+			ips := []string{fmt.Sprintf("127.0.1.%d", 10+2*ci), fmt.Sprintf("127.0.1.%d", 11+2*ci)}
+			var confs []*tls.Config
+			for _, ip := range ips {
+				confs = append(confs, &tls.Config{Certificates: []tls.Certificate{ca.Issue(caserver.Leaf{CN: "crypki", IPs: []string{ip}})}, MinVersion: tls.VersionTLS12})
+			}
+			servers, port, err := caserver.StartGroup(ips, confs)
+			if err != nil {
+				r.Count("retry cases skipped: cannot start servers", 1)
+				return
+			}
+			defer func() {
+				for _, s := range servers {
+					s.Stop()
+				}
+			}()
+			var expect [][]ssh.PublicKey
+			for k, s := range servers {
+				text, certs, _ := reply(c.Rand, 1+k)
+				expect = append(expect, certs)
+				var n atomic.Int32
+				fails := int32(rc.failFirst[k])
+				s.Set(func(context.Context, *proto.SSHCertificateSigningRequest) (*proto.SSHKey, error) {
+					if n.Add(1) <= fails {
+						return nil, status.Error(rc.code, "scripted transient failure")
+					}
+					return &proto.SSHKey{Key: text}, nil
+				})
+			}
+			req := &proto.SSHCertificateSigningRequest{KeyMeta: &proto.KeyMeta{Identifier: "id-retry"}, Principals: []string{"alice"}, PublicKey: "ssh-ed25519 AAAA", Validity: 77, KeyId: "retry " + rc.name, Extensions: map[string]string{"permit-pty": ""}}
+			sent := gproto.Clone(req).(*proto.SSHCertificateSigningRequest)
+			rec := map[string]any{"case": rc.name, "retries": rc.retries, "leading_failures_per_endpoint": rc.failFirst, "status": rc.code.String()}
+			r.Eval(1)
+			var certs []ssh.PublicKey
+			var serr error
+			if r.Guard(c, "Signer with retries", rec, func() {
+				signer, err := crypki.NewSigner(crypki.SignerConfig{TLSClientKeyFile: clientKey, TLSClientCertFile: clientCert, TLSCACertFiles: []string{caPath}, CrypkiEndpoints: ips, CrypkiPort: uint(port), Retries: rc.retries, PerTryTimeout: 20 * time.Second})
+				if err != nil {
+					serr = err
+					return
+				}
+				ctx, cancel := context.WithTimeout(context.Background(), 4*time.Minute)
+				defer cancel()
+				certs, _, serr = signer.Sign(ctx, req)
+			}) {
+				return
+			}
+			calls := [][]caserver.Call{servers[0].Calls(), servers[1].Calls()}
+			rec["calls_per_endpoint"] = []int{len(calls[0]), len(calls[1])}
+			rec["result"] = fmt.Sprintf("certs=%d err=%v", len(certs), serr)
+			for k := range calls {
+				for _, cl := range calls[k] {
+					if !gproto.Equal(cl.Req, sent) {
+						r.Violation(c, "request-modified-on-retry:"+rc.name, fmt.Sprintf("endpoint #%d received %v, caller passed %v", k, cl.Req, sent), rec)
+						return
+					}
+				}
+				for i := 1; i < len(calls[k]); i++ {
+					gap := calls[k][i].At.Sub(calls[k][i-1].At)
+					r.Count("retry delays observed", 1)
+					// configured maximum 15 s enlarged by jitter 0.2 = 18 s; generous slack for a loaded machine
+					if gap > 60*time.Second {
+						r.Violation(c, "retry-delay-above-maximum:"+rc.name, fmt.Sprintf("endpoint #%d: %s between attempts %d and %d", k, gap, i, i+1), rec)
+						return
+					}
+				}
+			}
+			if len(calls[0]) == 0 {
+				r.Violation(c, "endpoint-skipped:retries:"+rc.name, "the first endpoint never received the request", rec)
+				return
+			}
+			switch rc.wantFrom {
+			case 0:
+				if len(calls[1]) != 0 {
+					r.Violation(c, "later-endpoint-contacted-although-earlier-one-answered:"+rc.name, fmt.Sprintf("second endpoint received %d requests", len(calls[1])), rec)
+					return
+				}
+			case 1, -1:
+				if len(calls[1]) == 0 {
+					r.Violation(c, "endpoint-skipped:retries:"+rc.name, "the second endpoint never received the request although the first never answered successfully", rec)
+					return
+				}
+			}
+			if rc.wantFrom < 0 {
+				if serr == nil {
+					r.Violation(c, "success-although-every-endpoint-failed:"+rc.name, fmt.Sprintf("certs=%d", len(certs)), rec)
+					return
+				}
+			} else {
+				if serr != nil {
+					r.Violation(c, "sign-fails-although-an-endpoint-signed:retries:"+rc.name, serr.Error(), rec)
+					return
+				}
+				want := expect[rc.wantFrom]
+				if len(certs) != len(want) {
+					r.Violation(c, "result-not-from-first-successful-endpoint:"+rc.name, fmt.Sprintf("%d certificates, endpoint #%d returned %d", len(certs), rc.wantFrom, len(want)), rec)
+					return
+				}
+				for i := range want {
+					if string(certs[i].Marshal()) != string(want[i].Marshal()) {
+						r.Violation(c, "result-not-from-first-successful-endpoint:"+rc.name, fmt.Sprintf("certificate %d differs", i), rec)
+						return
+					}
+				}
+			}
+			r.Count("signing calls with several attempts per endpoint judged", 1)
+			r.Nontrivial("retries:" + rc.name)
+		}(ci, rc)
+	}
+	wg.Wait()
 }
 
 func backoffs(r *ev.Run) {
